@@ -137,7 +137,7 @@ RV_<G_<NFT_, TC_, Manual, TRO_ HFSM2_IF_UTILITY_THEORY(, TR_, TU_, TG_), NSL_ HF
 	_core.transitionTargets.clear();
 	HFSM2_ASSERT(_core.previousTransitions.count() == 0);
 
-	if (HFSM2_CHECKED(transitions && count)) {
+	if (HFSM2_CHECKED(transitions && count) && count <= TransitionSets::CAPACITY) {
 		TransitionSets emptyTransitions;
 		PlanControl control{_core, emptyTransitions};
 
